@@ -26,28 +26,54 @@ type xyzSpace struct {
 	toXYZ      func(r, g, b float32) ciexyz.Color
 	fromXYZ    func(c ciexyz.Color) (r, g, b float32)
 	pubPrim    [8]float64
+	// ColorFromXYZ(x), then the components edited in place by f, then ToXYZ on the same value
+	editedXYZ func(x ciexyz.Color, f func(r, g, b float32) (float32, float32, float32)) ciexyz.Color
 }
 
 var xyzSpaces = []xyzSpace{
 	{"srgb", "pub_srgb", srgb.PrimaryRed, srgb.PrimaryGreen, srgb.PrimaryBlue, srgb.StandardWhitePoint,
 		func(r, g, b float32) ciexyz.Color { return srgb.ColorFromLinear(r, g, b).ToXYZ() },
 		func(c ciexyz.Color) (float32, float32, float32) { x := srgb.ColorFromXYZ(c); return x.R, x.G, x.B },
-		[8]float64{0.64, 0.33, 0.30, 0.60, 0.15, 0.06, 0.3127, 0.3290}},
+		[8]float64{0.64, 0.33, 0.30, 0.60, 0.15, 0.06, 0.3127, 0.3290},
+		func(x ciexyz.Color, f func(r, g, b float32) (float32, float32, float32)) ciexyz.Color {
+			c := srgb.ColorFromXYZ(x)
+			c.R, c.G, c.B = f(c.R, c.G, c.B)
+			d := c
+			return d.ToXYZ()
+		}},
 	{"adobergb", "pub_adobe", adobergb.PrimaryRed, adobergb.PrimaryGreen, adobergb.PrimaryBlue, adobergb.StandardWhitePoint,
 		func(r, g, b float32) ciexyz.Color { return adobergb.ColorFromLinear(r, g, b).ToXYZ() },
 		func(c ciexyz.Color) (float32, float32, float32) { x := adobergb.ColorFromXYZ(c); return x.R, x.G, x.B },
-		[8]float64{0.64, 0.33, 0.21, 0.71, 0.15, 0.06, 0.3127, 0.3290}},
+		[8]float64{0.64, 0.33, 0.21, 0.71, 0.15, 0.06, 0.3127, 0.3290},
+		func(x ciexyz.Color, f func(r, g, b float32) (float32, float32, float32)) ciexyz.Color {
+			c := adobergb.ColorFromXYZ(x)
+			c.R, c.G, c.B = f(c.R, c.G, c.B)
+			d := c
+			return d.ToXYZ()
+		}},
 	{"prophotorgb", "pub_prophoto", prophotorgb.PrimaryRed, prophotorgb.PrimaryGreen, prophotorgb.PrimaryBlue, prophotorgb.StandardWhitePoint,
 		func(r, g, b float32) ciexyz.Color { return prophotorgb.ColorFromLinear(r, g, b).ToXYZ() },
 		func(c ciexyz.Color) (float32, float32, float32) {
 			x := prophotorgb.ColorFromXYZ(c)
 			return x.R, x.G, x.B
 		},
-		[8]float64{0.7347, 0.2653, 0.1596, 0.8404, 0.0366, 0.0001, 0.3457, 0.3585}},
+		[8]float64{0.7347, 0.2653, 0.1596, 0.8404, 0.0366, 0.0001, 0.3457, 0.3585},
+		func(x ciexyz.Color, f func(r, g, b float32) (float32, float32, float32)) ciexyz.Color {
+			c := prophotorgb.ColorFromXYZ(x)
+			c.R, c.G, c.B = f(c.R, c.G, c.B)
+			d := c
+			return d.ToXYZ()
+		}},
 	{"displayp3", "pub_p3", displayp3.PrimaryRed, displayp3.PrimaryGreen, displayp3.PrimaryBlue, displayp3.StandardWhitePoint,
 		func(r, g, b float32) ciexyz.Color { return displayp3.ColorFromLinear(r, g, b).ToXYZ() },
 		func(c ciexyz.Color) (float32, float32, float32) { x := displayp3.ColorFromXYZ(c); return x.R, x.G, x.B },
-		[8]float64{0.68, 0.32, 0.265, 0.69, 0.15, 0.06, 0.3127, 0.3290}},
+		[8]float64{0.68, 0.32, 0.265, 0.69, 0.15, 0.06, 0.3127, 0.3290},
+		func(x ciexyz.Color, f func(r, g, b float32) (float32, float32, float32)) ciexyz.Color {
+			c := displayp3.ColorFromXYZ(x)
+			c.R, c.G, c.B = f(c.R, c.G, c.B)
+			d := c
+			return d.ToXYZ()
+		}},
 }
 
 func bits32s(v ...float32) string {
@@ -200,6 +226,38 @@ func init() {
 					c.res.Streams["apply32_from"]++
 					if m2 != h32(r)+" "+h32(g)+" "+h32(b) {
 						c.res.mismatch(Mismatch{Stream: "apply32_from", Input: map[string]interface{}{"space": s.name, "xyz": x}, Impl: h32(r) + " " + h32(g) + " " + h32(b), Model: m2})
+					}
+				}
+			}
+			// value semantics: the XYZ of a colour depends on its current components only, whatever it was built from
+			edits := []func(r, g, b float32) (float32, float32, float32){
+				func(r, g, b float32) (float32, float32, float32) { return r / 2, g / 2, b / 2 },
+				func(r, g, b float32) (float32, float32, float32) { return 0, 0, 0 },
+				func(r, g, b float32) (float32, float32, float32) {
+					cl := func(v float32) float32 {
+						if v < 0 {
+							return 0
+						}
+						if v > 1 {
+							return 1
+						}
+						return v
+					}
+					return cl(r), cl(g), cl(b)
+				},
+				func(r, g, b float32) (float32, float32, float32) { return b, r, g },
+			}
+			for k := 0; k < 40; k++ {
+				x := ciexyz.Color{X: float32(c.rng.Float64() * 1.1), Y: float32(c.rng.Float64()), Z: float32(c.rng.Float64() * 1.2)}
+				for ei, f := range edits {
+					got := s.editedXYZ(x, f)
+					r, g, b := s.fromXYZ(x)
+					r, g, b = f(r, g, b)
+					want := s.toXYZ(r, g, b)
+					c.res.count("edited-"+s.name, fmt.Sprint(s.name, x, ei), true)
+					if bits32s(got.X, got.Y, got.Z) != bits32s(want.X, want.Y, want.Z) {
+						c.res.fail(Failure{Class: "C03:" + s.name + ":edited-colour", Desc: "ToXYZ of a colour built by ColorFromXYZ and then edited is not the XYZ of its current components",
+							Input: map[string]interface{}{"space": s.name, "xyz": x, "edit": ei}, Got: fmt.Sprint(got), Want: fmt.Sprint(want)})
 					}
 				}
 			}
